@@ -38,7 +38,10 @@ REFCACHE_CFG = {"quick": "RefCache_q.cfg", "thorough": "RefCache_t.cfg"}
 RC_ALL_DEPTH = {"quick": 3, "thorough": 4}
 # ... plus a seeded sample of the deeper ones
 RC_SAMPLE = {"quick": 2500, "thorough": 60000}
-TIMEOUT = {"quick": 400, "thorough": 1500}
+# generous: a loaded machine must not turn into a machinery failure
+TIMEOUT = {"quick": 1200, "thorough": 3000}
+# traces per TLC validation JVM (memory: ~1 GB per 10 MB of traces)
+CASES_PER_SHARD = {"rc": 700, "ct": 1500}
 FINDINGS = os.path.join(tlc.VERIF, "findings")
 
 
@@ -81,7 +84,9 @@ def _replay_and_judge(cases: List[dict], wd: str, tag: str, jobs: int, tier: str
     with open(path, "w") as out:
         for c in cases:
             out.write(json.dumps(c, separators=(",", ":")) + "\n")
-    shards = core.split_file(path, jobs, wd, f"cases.{tag}")
+    per = CASES_PER_SHARD.get(tag, 1000)
+    nshards = max(jobs, -(-len(cases) // per))
+    shards = core.split_file(path, nshards, wd, f"cases.{tag}")
     traces = core.run_module_parallel("harness.containers.runner", shards, wd, tag)
     return tlc.validate_sharded("TraceContainers.tla", "TraceContainers.cfg", traces,
                                 jobs=jobs, timeout=TIMEOUT[tier])
